@@ -39,6 +39,11 @@ func (s *Service) BlockRootToSlot(ctx context.Context, root phase0.Root) (phase0
 		monitorBlockRootToSlot("failed")
 		return 0, errors.Wrap(err, "failed to obtain block header")
 	}
+	if blockResponse.Data == nil || blockResponse.Data.Header == nil || blockResponse.Data.Header.Message == nil {
+		// An answer without the header it was asked for.
+		monitorBlockRootToSlot("failed")
+		return 0, errors.New("block header response contains no block header")
+	}
 	slot = blockResponse.Data.Header.Message.Slot
 	s.SetBlockRootToSlot(root, blockResponse.Data.Header.Message.Slot)
 
